@@ -13,7 +13,9 @@ VERIF = os.path.dirname(os.path.dirname(os.path.abspath(__file__)))
 LEAN = os.path.join(VERIF, "lean")
 HARNESS = os.path.join(VERIF, "harness")
 BUILD = os.path.join(VERIF, ".build")
-TARGET = os.path.join(BUILD, "target")
+REPO = os.environ.get("VERIF_REPO", "/repo")   # VERIF_REPO=<scratch worktree of /repo>: mutation experiments without touching /repo
+ALT = REPO != "/repo"
+TARGET = os.path.join(BUILD, "target-alt" if ALT else "target")
 VH = os.path.join(TARGET, "release", "vh")
 MODEL = os.path.join(LEAN, ".lake", "build", "bin", "spdcmodel")
 GUARD = "spdcalc_verif"
@@ -45,8 +47,17 @@ def sh(cmd, cwd=None, env=None, timeout=None, stdin=None):
 
 
 def build_harness():
+    global HARNESS
     os.makedirs(BUILD, exist_ok=True)
-    lock_src = "/repo/Cargo.lock"
+    if ALT:
+        import shutil
+        alt = os.path.join(BUILD, "harness-alt")
+        shutil.rmtree(alt, ignore_errors=True)
+        shutil.copytree(HARNESS, alt, ignore=shutil.ignore_patterns("target"))
+        ct = os.path.join(alt, "Cargo.toml")
+        open(ct, "w").write(open(ct).read().replace('path = "/repo"', f'path = "{REPO}"'))
+        HARNESS = alt
+    lock_src = os.path.join(REPO, "Cargo.lock")
     lock_dst = os.path.join(HARNESS, "Cargo.lock")
     # keep the harness lockfile = /repo's pinned versions (offline resolution needs it); only
     # refresh it if cargo cannot build with the one committed
